@@ -236,7 +236,9 @@ pub fn swarm_run(seed: u64, ri: u64, thorough: bool, st: &mut Stats, errs: &mut 
         let r = &rr.insts[0];
         if r.built && !rng.chance(0.15) {
             let k = place_fault(&mut rng, r.calls, &r.poll_calls);
+            let domain = if rng.chance(0.2) { crate::explore_f::domain_plan(&mut rng, &r.call_args, k) } else { None };
             inst.plan = match rng.below(8) {
+                _ if domain.is_some() => domain.unwrap().0,
                 0..=2 => FaultPlan::Transient(k),
                 3..=5 => FaultPlan::Permanent(k),
                 6 => FaultPlan::Burst(k, rng.range(2, 6)),
